@@ -73,6 +73,16 @@ func TestEscapedString(t *testing.T) {
 	assert.Equal(t, 2, len(kb.stages))
 }
 
+func TestTrailingBackslash(t *testing.T) {
+	kb, err := NewKeyBuilder().Compile("abc\\")
+	assert.Nil(t, err)
+	assert.Equal(t, "abc\\", kb.BuildKey(&testContext))
+
+	kb, err = NewKeyBuilder().Compile("{0}\\")
+	assert.Nil(t, err)
+	assert.Equal(t, "ab\\", kb.BuildKey(&testContext))
+}
+
 func TestDeepKeys(t *testing.T) {
 	kb, _ := NewKeyBuilder().Compile("{{1} b} is bucketed")
 	key := kb.BuildKey(&testContext)
